@@ -223,6 +223,21 @@ func runC15(c *Ctx) {
 		}
 	}
 
+	// ---- M9: numbers written with huge exponents: a query of twenty characters must not keep the evaluator busy for seconds
+	// (and, a few digits more, for ever) - it is refused, or evaluated at once
+	for _, tc := range []string{"age > 1e30000000", "age = 1e-30000000", "age <= -1e30000000"} {
+		q := &stubQueryable{vals: map[string][]any{"age": {decimal.RequireFromString("36")}}}
+		t0 := time.Now()
+		_, ok := evalQ(env, tc, q)
+		took := time.Since(t0)
+		c.Count("check:M9-number-range")
+		c.Eval(fmt.Sprintf("M9|%s|%v|%v", tc, ok, took > 2*time.Second))
+		if took > 2*time.Second {
+			c.Fail("monitor", "M9-number-range", "query-evaluation-does-not-return", fmt.Sprintf("evaluating the query took %s: the cost of a comparison grows with the exponent of the number written in the query", took.Round(time.Millisecond)),
+				map[string]any{"query": tc, "contact_value": "36", "took": took.String()})
+		}
+	}
+
 	// ---- M5: totality over every admitted (property, operator) pair -----------------------
 	{
 		fs := append([]assets.Field{}, fields...)
